@@ -274,7 +274,24 @@ for n in sorted(os.listdir(seeded)):
         continue
     if not any(str(v).startswith("DETECTED") for v in det.values()):
         missed_names.append(n)
-NOT_CAUGHT = ("Not caught by any check (stated limits of the machinery, not equivalences): " +
+_own = _cross = 0
+_cross_names = []
+for n in sorted(os.listdir(seeded)):
+    mp = os.path.join(seeded, n, "meta.json")
+    if not os.path.exists(mp):
+        continue
+    m = json.load(open(mp))
+    det = m.get("detected_by")
+    if str(m.get("status", "")).startswith("superseded") or not isinstance(det, dict):
+        continue
+    if str(det.get(m["property"], "")).startswith("DETECTED"):
+        _own += 1
+    elif any(str(v).startswith("DETECTED") for v in det.values()):
+        _cross += 1
+        _cross_names.append("%s (%s)" % (n, ", ".join(k for k, v in det.items() if str(v).startswith("DETECTED"))))
+SUMMARY = ("Result on the final tree: of %d live changes, %d are reported by the quick tier of their own property's check and %d "
+           "only by a neighbouring property's check: %s. " % (_own + _cross + len(missed_names), _own, _cross, "; ".join(_cross_names)))
+NOT_CAUGHT = (SUMMARY + "Not caught by any check (stated limits of the machinery, not equivalences): " +
               ("; ".join("`%s` - %s" % (n, REASONS.get(n, "see its notes.md")) for n in missed_names) if missed_names else "none") +
               ". Two round-1 changes (`C11-m1`, `C17-m2`) no longer break their property after a repair made the tree tolerant of them.")
 s += """## 9. Seeded changes (independent sub-agents) and which checks catch them
